@@ -655,8 +655,11 @@ class Interp(EvalMixin, BuiltinMixin):
         # exceptional outcomes
         alts, names = [True], ["normal"]
         whens = []
-        for (exc, when, iff) in con.raises_:
-            w = zbool(truth(self.ev(parse_expr(when), sfr)))
+        for k_, (exc, when, iff) in enumerate(con.raises_):
+            if k_ in con.at_raise:
+                w = z3.BoolVal(True)     # condition speaks about the callee's locals: at a call site it may raise at any time
+            else:
+                w = zbool(truth(self.ev(parse_expr(when), sfr)))
             whens.append((exc, w, iff))
         normal = zand(*[znot(w) for (exc, w, iff) in whens if iff])
         alts = [normal] + [w for (_, w, _) in whens]
@@ -746,9 +749,11 @@ class Interp(EvalMixin, BuiltinMixin):
         for n, d in con.params.items():
             params[n] = self.make_value(d, n)
         # module-level bindings overridden by symbols (e.g. _DEFAULT_BUFFER_SIZE >= 1)
+        self.bound_globals = {}
         for gname, (desc, ctext) in con.bind.items():
             v = self.make_value(desc, gname)
             self._live_cache[(info.module, gname)] = v
+            self.bound_globals[gname] = v
         # defaults for parameters not described
         a = info.node.args
         names = [x.arg for x in a.posonlyargs + a.args]
